@@ -1014,3 +1014,55 @@ func deepStoresTo(fn *ssa.Function, f *types.Var) []deepStore {
 	rec(fn, nil, map[ssa.Value]ssa.Value{}, 0)
 	return out
 }
+
+// containsDeep: fn, or an unexported helper of the same package that it calls (transitively, bounded), contains an
+// instruction satisfying pred.
+func containsDeep(fn *ssa.Function, pred func(ssa.Instruction) bool, depth int) bool {
+	found := false
+	eachInstr(fn, func(in ssa.Instruction) {
+		if found {
+			return
+		}
+		if pred(in) {
+			found = true
+			return
+		}
+		if depth <= 0 {
+			return
+		}
+		if call, ok := in.(*ssa.Call); ok {
+			if callee := call.Call.StaticCallee(); isHelperOf(fn, callee) && containsDeep(callee, pred, depth-1) {
+				found = true
+			}
+		}
+	})
+	return found
+}
+
+// doesDeep: the instruction satisfies pred, or is a call of an unexported helper (same package) whose body does.
+func doesDeep(in ssa.Instruction, pred func(ssa.Instruction) bool) bool {
+	if pred(in) {
+		return true
+	}
+	if call, ok := in.(*ssa.Call); ok {
+		if callee := call.Call.StaticCallee(); callee != nil && in.Parent() != nil && isHelperOf(in.Parent(), callee) {
+			return containsDeep(callee, pred, 1)
+		}
+	}
+	return false
+}
+
+// returnedFieldLoad: fn is a helper every return of which yields a load of field f (e.g. `posts := p.posts; ...; return posts`).
+func returnsLoadOf(fn *ssa.Function, f *types.Var) (ssa.Value, bool) {
+	if fn == nil || fn.Blocks == nil {
+		return nil, false
+	}
+	var v ssa.Value
+	for _, r := range returnsOf(fn) {
+		if len(r.Results) != 1 || !loadOfField(r.Results[0], f) {
+			return nil, false
+		}
+		v = stripConv(r.Results[0])
+	}
+	return v, v != nil
+}
